@@ -67,11 +67,15 @@ func expSig(r exportRec) string {
 	return s
 }
 
-// commitShape commits one transaction of the given shape on st and exports it.
+// commitShape commits one transaction of the given shape on st and exports it.  A refusal, a failure to read the
+// committed transaction back for the export, or a call that does not return is a verdict (nil is returned).
 func commitShape(ctx context.Context, st *store.ImmuStore, holder *store.Tx, rec exportRec, k int) *expTx {
 	t := &expTx{rec: rec}
-	otx, err := st.NewWriteOnlyTx(ctx)
-	vh.Must(err, "NewWriteOnlyTx")
+	cls := fmt.Sprintf("extra=%s,entries=%d", rec.Extra, len(rec.Entries))
+	var otx *store.OngoingTx
+	if !step("store.NewWriteOnlyTx", "encode", "tx", cls, 30*time.Second, rec, func() error { x, err := st.NewWriteOnlyTx(ctx); otx = x; return err }) {
+		return nil
+	}
 	if rec.Extra != "absent" {
 		otx.WithMetadata(mkTxMd(txmdRec{Trunc: "absent", Extra: rec.Extra}, k))
 	}
@@ -93,14 +97,28 @@ func commitShape(ctx context.Context, st *store.ImmuStore, holder *store.Tx, rec
 		if e.Md.Deleted || e.Md.NonIndexable || e.Md.Expires != "absent" {
 			md = mkKvMd(e.Md, k)
 		}
-		vh.Must(otx.Set(key, md, val), "Set")
+		if !step("store.OngoingTx.Set", "encode", "tx.entry", fmt.Sprintf("k=%s,v=%s,%s", e.Klen, e.Vlen, kvSig(e.Md)), 30*time.Second, rec, func() error { return otx.Set(key, md, val) }) {
+			otx.Cancel()
+			return nil
+		}
 		t.keys, t.vals, t.mds = append(t.keys, key), append(t.vals, val), append(t.mds, md)
 	}
-	t.hdr, err = otx.Commit(ctx)
-	vh.Must(err, "Commit on primary ("+expSig(rec)+")")
-	t.bytes, err = st.ExportTx(t.hdr.ID, false, false, holder)
-	vh.Must(err, "ExportTx on primary")
-	t.bytes = append([]byte{}, t.bytes...)
+	if !step("store.Commit", "encode", "tx", cls, 60*time.Second, rec, func() error {
+		cctx, cancel := context.WithTimeout(ctx, 40*time.Second)
+		defer cancel()
+		h, err := otx.Commit(cctx)
+		t.hdr = h
+		return err
+	}) {
+		return nil
+	}
+	if !step("store.ExportTx", "decode", "tx", cls, 30*time.Second, rec, func() error {
+		b, err := st.ExportTx(t.hdr.ID, false, false, holder)
+		t.bytes = append([]byte{}, b...)
+		return err
+	}) {
+		return nil
+	}
 	res.Count("export", 1)
 	return t
 }
@@ -162,13 +180,18 @@ func runExports(cf *casesFile, dir string) {
 	p := openStore(dir, "primary")
 	a := openStore(dir, "replicaA")
 	b := openStore(dir, "replicaB")
-	defer func() { p.Close(); a.Close(); b.Close() }()
+	defer closeAll(p, a, b)
 
 	holder := store.NewTx(p.MaxTxEntries(), p.MaxKeyLen())
 	chainBroken := false // replica B can only continue while every earlier tx went through
 	for k, rec := range cf.Exports {
 		note("export", expSig(rec))
 		t := commitShape(ctx, p, holder, rec, k)
+		if t == nil {
+			// the primary holds (or refused) a transaction the replicas cannot receive: their chains end here
+			res.Count("export-chain-ended", 1)
+			break
+		}
 		replicateAndCompare(ctx, a, "replica", t, t.bytes, false)
 		if k%97 == 0 {
 			res.Sample(map[string]interface{}{"export": rec, "bytes": fmt.Sprintf("%x", clip(t.bytes)), "len": len(t.bytes)}, 12)
@@ -215,22 +238,37 @@ func runRealTruncation(ctx context.Context, cf *casesFile, dir string) {
 	pt, err := store.Open(filepath.Join(dir, "primaryT"), opts)
 	vh.Must(err, "open primaryT")
 	rt := openStore(dir, "replicaT")
-	defer func() { pt.Close(); rt.Close() }()
+	defer closeAll(pt, rt)
 	holder := store.NewTx(pt.MaxTxEntries(), pt.MaxKeyLen())
 	var txs []*expTx
 	for k, rec := range cf.Exports {
 		if rec.Truncated {
-			txs = append(txs, commitShape(ctx, pt, holder, rec, k))
+			t := commitShape(ctx, pt, holder, rec, k)
+			if t == nil {
+				return
+			}
+			txs = append(txs, t)
 		}
 	}
 	var last uint64
 	for f := 0; f < 3; f++ { // filler: pushes the shapes' values into chunks that lie entirely before the cut
-		otx, err := pt.NewWriteOnlyTx(ctx)
-		vh.Must(err, "filler tx")
-		vh.Must(otx.Set([]byte(fmt.Sprintf("filler%d", f)), nil, vh.Bytes(seed, "filler", f, 3000)), "filler set")
-		h, err := otx.Commit(ctx)
-		vh.Must(err, "filler commit")
-		last = h.ID
+		ok := step("store.Commit", "encode", "tx", "filler-3000-bytes", 60*time.Second, nil, func() error {
+			otx, err := pt.NewWriteOnlyTx(ctx)
+			if err != nil {
+				return err
+			}
+			if err := otx.Set([]byte(fmt.Sprintf("filler%d", f)), nil, vh.Bytes(seed, "filler", f, 3000)); err != nil {
+				return err
+			}
+			h, err := otx.Commit(ctx)
+			if err == nil {
+				last = h.ID
+			}
+			return err
+		})
+		if !ok {
+			return
+		}
 	}
 	var terr error
 	if !guard("store.TruncateUptoTx", func() { terr = pt.TruncateUptoTx(last) }) || terr != nil {
@@ -262,6 +300,15 @@ func runRealTruncation(ctx context.Context, cf *casesFile, dir string) {
 		if !replicateAndCompare(ctx, rt, "replica-of-truncated-primary", t, exp, true) {
 			return
 		}
+	}
+}
+
+// closeAll closes stores without trusting Close to return (a store whose indexer met an unreadable
+// transaction may not).
+func closeAll(sts ...*store.ImmuStore) {
+	for _, st := range sts {
+		st := st
+		vh.Guard(20*time.Second, func() { st.Close() })
 	}
 }
 
